@@ -154,3 +154,26 @@ def rejected(j, label, fn, *a, **kw):
     if j is not None:
         j.note("calls_expected_to_be_rejected_that_were_accepted")
     return None
+
+
+def sibling(X, Z):
+    """A table that nothing but its numbers tells apart from X: same shape, same column means, same column norms
+    about the mean (what two standardised tables look like) - hence the same sum and the same sum of squares.
+    Z is a standard-normal table of X's shape."""
+    X = np.asarray(X, dtype=float)
+    Z = np.array(Z, dtype=float, copy=True)
+    if X.ndim != 2 or X.shape[0] < 2:
+        return Z * max(float(np.abs(X).max(initial=0.0)), 1e-300)
+    mu = X.mean(axis=0)
+    Z -= Z.mean(axis=0)
+    cz, cx = np.linalg.norm(Z, axis=0), np.linalg.norm(X - mu, axis=0)
+    Z *= np.where(cz > 0, cx / np.where(cz > 0, cz, 1.0), 0.0)
+    return Z + mu
+
+
+def sibling_or(X, Z, scale):
+    """Every other time (decided by the numbers drawn, not by another draw) the earlier data are a sibling of X,
+    otherwise the plain table Z * scale."""
+    if Z.size and int(abs(float(Z.flat[0])) * 1e6) % 2 == 0:
+        return sibling(X, Z)
+    return Z * scale
